@@ -23,8 +23,8 @@
 
    Level B (full, unbounded; proofs/HtmlRender*.v): from TEXT to events.  SPEC (proofs/HtmlRender.v,
    proofs/HtmlRenderScan.v, sections SPEC): a document is a list of [item]s
-     IText s | IComment body | ICData body | IPI pieces | IPaired name attrs ws kids | ISelf name attrs ws
-     | IVoid name attrs ws | IRaw name attrs ws body
+     IText s | ILt s | IComment body | ICData body | IPI pieces | IPaired name attrs ws kids
+     | ISelf name attrs ws | IVoid name attrs ws | IRaw name attrs ws body
    an attribute is white space, a name and a value  VNone | VQuoted q body | VUnquoted body | VExpr pieces
    ({...} with nested braces and quoted strings);  [render : list item -> str] writes the text,
    [forest_of d] is the record of where every element of [render d] lies (exact open / close ranges computed from
@@ -32,7 +32,8 @@
    documents: names over the scanner's XML name alphabet (name_start_char / name_char); attribute white space not
    empty; quoted values free of their quote and of backslash (they MAY contain `>` `<` `/` `=`); unquoted values
    not empty, free of quote / white space / `>` / `/`, not starting with a bracket; expression characters free of
-   quote / brace / backslash outside its quoted strings; text free of `<`; comment / CDATA / raw bodies in which
+   quote / brace / backslash outside its quoted strings; text free of `<`; ILt = a `<` that starts nothing
+   (`<!DOCTYPE html>`, `a < b`: followed by text that begins with no name start, `/`, `?`, `!-`, `![`); comment / CDATA / raw bodies in which
    the terminator (`-->`, `]]>`, `</name>`) occurs first at the end (ends_firstb; C09_ends_first_spec; true of
    every body that does not contain its terminator: C09_terminator_free_bodies); PI pieces
    plain non-quote characters or quoted strings, no `?>` before the end; an element is IRaw exactly when the scanner
@@ -49,7 +50,7 @@
      C09_attribute_ranges_text   get_attributes over a tag lying anywhere in a source = those tokens, shifted
      C09_attribute_tokens_slice  every such token slices the source exactly to the name and to the value as written
    Outside the grammar (covered by correspondence + ground-truth oracle only): Angular/React attribute names
-   (`*ngIf`, `#ref`, `[prop]`, `(click)`, `{...spread}`), `<!DOCTYPE ...>` declarations and stray `<` in text,
+   (`*ngIf`, `#ref`, `[prop]`, `(click)`, `{...spread}`),
    backslash escapes inside quoted values, white space around `=` or inside close tags, unbalanced quotes in PIs.
    What is proved about the scanner for ALL strings is in props/C16Html.v. *)
 From Coq Require Import List NArith ZArith.
@@ -231,14 +232,15 @@ Definition c09_example_doc : list item :=
           [ IVoid (s "br") [] []; ISelf (s "img") [at_ (s "src") (VQuoted 34 (s "/"))] (s " ") ];
         ICData (s "<i>");
         IRaw (s "script") [at_ (s "type") (VQuoted 34 (s "text/javascript"))] [] (s "if (a<b) '</div>'");
-        IPaired (s "script") [at_ (s "type") (VQuoted 34 (s "text/x-template"))] [] [IPaired (s "p") [] [] []] ] ]%N.
+        IPaired (s "script") [at_ (s "type") (VQuoted 34 (s "text/x-template"))] [] [IPaired (s "p") [] [] []] ];
+    ILt (s "!DOCTYPE html>"); IText (s " a "); ILt (s " b") ]%N.
 
 Example C09_text_nonvacuous :
   doc_ok default_opts c09_example_doc = true /\
   render c09_example_doc =
     s ("<?xml v=""?>""?><!-- <b> --><ul class=""a>b"" data-x=1 on={f(""}""{>})} hidden >text<li id='x'><br>" ++
               "<img src=""/"" /></li><![CDATA[<i>]]><script type=""text/javascript"">if (a<b) '</div>'</script>" ++
-              "<script type=""text/x-template""><p></p></script></ul>") /\
+              "<script type=""text/x-template""><p></p></script></ul><!DOCTYPE html> a < b") /\
   map (fun e => (ev_name e, ev_start e)) (events c09_example_doc) =
     [(s "ul", 26); (s "li", 78); (s "br", 89); (s "img", 93); (s "li", 108);
      (s "script", 128); (s "script", 176); (s "script", 185); (s "p", 216);
